@@ -4,6 +4,10 @@
    Input lines (from harness/names), fields separated by single spaces; a name is "-" (empty) or comma separated
    typ:hexvalue items; a hex string is "-" when empty; a comparison is -1/0/1; a bool is 0/1.
      PAIR <a> <b> <cmp> <eq> <pfx_ab> <pfx_ba> <cmp_ba> <hash_eq> <bytes_a> <bytes_b>
+     APAIR <shape> <full> <PAIR observations> <str_a> <str_b> <hashrel 0|1> <a_after> <b_after>
+                                                   the PAIR calls on operands that alias in memory: shape = sub:i:j:k (full[i:j] vs
+                                                   full[i:k]), ovl:i:j:i2:k, same:i:j, clone:i:j, val:i:j (shared Val buffers),
+                                                   cap:i:j (b = append(full[i:j], full[0]) written into spare capacity)
      TRIPLE <a> <b> <c> <ab> <bc> <ac> <ba> <cb> <ca>
      COMP <c> <d> <cmp> <eq> <bytes_c> <bytes_d>
      BYTES <a> <hex>                               Name.Bytes
@@ -93,6 +97,20 @@ let pres_comp_of (s : string) : comp pres =
   else if String.length s > 3 && String.sub s 0 3 = "ok=" then POk (comp_of_string (String.sub s 3 (String.length s - 3)))
   else failwith "bad result"
 
+(* operands of an APAIR line: slices of one name (see harness/names deriveAlias; the value of the operands only) *)
+let rec take k l = if k <= 0 then [] else match l with [] -> [] | x :: r -> x :: take (k-1) r
+let rec drop k l = if k <= 0 then l else match l with [] -> [] | _ :: r -> drop (k-1) r
+let slice l i j = take (j - i) (drop i l)
+let derive_alias (shape : string) (full : name) : name * name =
+  match String.split_on_char ':' shape with
+  | ["sub"; i; j; k] -> let i = int_of_string i in (slice full i (int_of_string j), slice full i (int_of_string k))
+  | ["ovl"; i; j; i2; k] -> (slice full (int_of_string i) (int_of_string j), slice full (int_of_string i2) (int_of_string k))
+  | ["same"; i; j] | ["clone"; i; j] | ["val"; i; j] ->
+      let a = slice full (int_of_string i) (int_of_string j) in (a, a)
+  | ["cap"; i; j] ->
+      let a = slice full (int_of_string i) (int_of_string j) in (a, a @ [List.hd full])
+  | _ -> failwith ("bad alias shape " ^ shape)
+
 let () =
   let lineno = ref 0 in
   let diverge kind m i = Printf.printf "DIVERGE %d %s model=%s impl=%s\n" !lineno kind m i in
@@ -101,32 +119,41 @@ let () =
   let br s = "[" ^ s ^ "]" in
   let cut s = if String.length s > 600 then String.sub s 0 600 ^ "..." else s in
   let cmpstr kind m i = if m <> i then diverge kind (br (cut m)) (br (cut i)) in
+  let check_pair kind na nb c e p1 p2 cba heq ea eb =
+    let m = String.concat " " [cmp_int (name_cmp na nb); b01 (name_eqb na nb); b01 (is_prefix na nb); b01 (is_prefix nb na);
+                               cmp_int (name_cmp nb na)] in
+    cmpstr kind m (String.concat " " [c; e; p1; p2; cba]);
+    cmpstr (if kind = "PAIR" then "PAIRBYTES" else kind) (hexf (name_bytes na) ^ " " ^ hexf (name_bytes nb)) (ea ^ " " ^ eb);
+    let same_input = bytes_eqb (name_hash_input na) (name_hash_input nb) in
+    if same_input && heq <> "1" then diverge "HASHFN" "equal-hash-input=>equal-hash" "hashes-differ";
+    (* the hash input is injective (hash_input_injective): equal hashes of different names are either a 2^-64 event
+       of the hash function or an implementation whose hash input no longer determines the name *)
+    if (not (name_eqb na nb)) && heq = "1" then
+      specfail "HASHCOLL" "two different names have the same Hash(): tables keyed by the hash conflate them";
+    (* oracle on the implementation's observations *)
+    if not (pair_ok (cmp_of_string c) (bool_of_01 e) (bool_of_01 p1) (bool_of_01 p2) (unhexf ea) (unhexf eb) (bool_of_01 heq))
+    then specfail kind "Compare/Equal/IsPrefix/Bytes/Hash observations of the pair are mutually inconsistent (pair_ok)";
+    if cmp_of_string cba <> (match cmp_of_string c with Eq -> Eq | Lt -> Gt | Gt -> Lt)
+    then specfail kind "Compare is not antisymmetric on this pair" in
   (try
     while true do
       let line = input_line stdin in
       incr lineno;
       (try
       match String.split_on_char ' ' line with
-      | (("PAIR" | "TRIPLE" | "COMP" | "BYTES" | "STR" | "CSTR" | "HASH") as k) :: rest
+      | (("PAIR" | "APAIR" | "TRIPLE" | "COMP" | "BYTES" | "STR" | "CSTR" | "HASH") as k) :: rest
         when (match List.rev rest with "panic" :: _ -> true | _ -> false) ->
           specfail k "the implementation panicked"
       | ["PAIR"; a; b; c; e; p1; p2; cba; heq; ea; eb] ->
-          let na = name_of_string a and nb = name_of_string b in
-          let m = String.concat " " [cmp_int (name_cmp na nb); b01 (name_eqb na nb); b01 (is_prefix na nb); b01 (is_prefix nb na);
-                                     cmp_int (name_cmp nb na)] in
-          cmpstr "PAIR" m (String.concat " " [c; e; p1; p2; cba]);
-          cmpstr "PAIRBYTES" (hexf (name_bytes na) ^ " " ^ hexf (name_bytes nb)) (ea ^ " " ^ eb);
-          let same_input = bytes_eqb (name_hash_input na) (name_hash_input nb) in
-          if same_input && heq <> "1" then diverge "HASHFN" "equal-hash-input=>equal-hash" "hashes-differ";
-          (* the hash input is injective (hash_input_injective): equal hashes of different names are either a 2^-64 event
-             of the hash function or an implementation whose hash input no longer determines the name *)
-          if (not (name_eqb na nb)) && heq = "1" then
-            specfail "HASHCOLL" "two different names have the same Hash(): tables keyed by the hash conflate them";
-          (* oracle on the implementation's observations *)
-          if not (pair_ok (cmp_of_string c) (bool_of_01 e) (bool_of_01 p1) (bool_of_01 p2) (unhexf ea) (unhexf eb) (bool_of_01 heq))
-          then specfail "PAIR" "Compare/Equal/IsPrefix/Bytes/Hash observations of the pair are mutually inconsistent (pair_ok)";
-          if cmp_of_string cba <> (match cmp_of_string c with Eq -> Eq | Lt -> Gt | Gt -> Lt)
-          then specfail "PAIR" "Compare is not antisymmetric on this pair"
+          check_pair "PAIR" (name_of_string a) (name_of_string b) c e p1 p2 cba heq ea eb
+      | ["APAIR"; shape; full; c; e; p1; p2; cba; heq; ea; eb; sa; sb; hok; aa; ab] ->
+          (* the same observations on operands that alias each other in memory (shape); the model is value based, so any
+             dependence on the memory layout shows up as a disagreement *)
+          let (na, nb) = derive_alias shape (name_of_string full) in
+          check_pair "APAIR" na nb c e p1 p2 cba heq ea eb;
+          cmpstr "APAIR" (hexf (name_to_str na) ^ " " ^ hexf (name_to_str nb)) (sa ^ " " ^ sb);
+          if hok <> "1" then specfail "APAIR" "Hash/PrefixHash relations fail on aliased operands";
+          cmpstr "APAIR" ("operands-after " ^ string_of_name na ^ " " ^ string_of_name nb) ("operands-after " ^ aa ^ " " ^ ab)
       | ["TRIPLE"; a; b; c; ab; bc; ac; ba; cb; ca] ->
           let na = name_of_string a and nb = name_of_string b and nc = name_of_string c in
           let m = String.concat " " (List.map cmp_int [name_cmp na nb; name_cmp nb nc; name_cmp na nc; name_cmp nb na; name_cmp nc nb; name_cmp nc na]) in
